@@ -81,6 +81,8 @@ UNIT_DRIVERS = {
     "wal_reader": ["wal::log_enum_quick"],
     "wal_writer": ["wal::log_enum_quick"],
     "table_skip": ["sstable::table::roundtrip_enum_quick"],
+    "table_add": ["sstable::table::roundtrip_enum_quick", "sstable::table::min_vlog_file_id_enum"],
+    "table_meta": ["sstable::table::roundtrip_enum_quick"],
 }
 
 
